@@ -84,13 +84,17 @@ theorem backtracks_cover_pushes :
     weight Opcodes.opNullmark = 1 ∧ backtracks Opcodes.opNullmark = false ∧
     weight Opcodes.opGoto = 0 ∧ backtracks Opcodes.opGoto = true := by decide
 
+/-- The same as one inequality per opcode, the form the summation lemma uses:
+    `weight op + 4·[op = Goto] ≤ 4·[opcodeBacktracks op] + [op = Nullmark]`. -/
+theorem op_bound_table : OpBoundTable := by unfold OpBoundTable; decide
+
 /-- For every program (list of the opcodes of its instructions, any numbers at all) that has at least as
     many Goto as Nullmark instructions: everything its positions can push, Φ(0) = Σ weight, is at most
     `4 * TrackCount` — the amount of free space every storage check establishes. -/
 theorem potential_le_need (prog : List Nat)
     (hpair : count Opcodes.opNullmark prog ≤ count Opcodes.opGoto prog) :
     phi (weights prog) 0 ≤ trackCount prog * 4 := by
-  have := weights_sum_bound prog
+  have := weights_sum_bound op_bound_table prog
   rw [phi_zero]
   omega
 
